@@ -32,6 +32,9 @@ def stories():
         {"id": "main-path-sighup", "viaRun": True, "keys": 2, "memWindow": 0, "gens": [
             {"upstream": ["healthy"], "clients": [c(40, 4, 35)], "reload": "transform", "reloadAtMs": 60, "stopAfterMs": 50},
             {"upstream": ["noAck"], "clients": [c(30, 5, 35)], "reload": "invalid", "reloadAtMs": 40, "stopAfterMs": 30}, fin]},
+        # a silent first connection and a healthy second one within ONE generation: the ACK timeout has to end the silent
+        # session so that everything is retransmitted and acknowledged without a restart
+        {"id": "silent-then-healthy-same-generation", "keys": 1, "memWindow": 0, "gens": [{"upstream": ["noAck", "healthy"], "clients": [c(25, 5, 35)], "stopAfterMs": 20, "drain": True}]},
         {"id": "stop-mid-retry", "keys": 2, "memWindow": 0, "gens": [{"upstream": ["closeNow"] * 30, "clients": [c(20, 5, 35)], "stopAfterMs": 0}, {"upstream": ["noAck"], "clients": [c(20, 5, 35)], "stopAfterMs": 0}, fin]},
     ]
 
